@@ -8,6 +8,13 @@ Definition sort_toks (l : list nat) : list nat := isort Nat.leb l.
 Definition preinstall (pre : list nat) (w : world) : world :=
   set_sig (fold_left (fun t sh => setsig (fst sh) (snd sh) t) (combine reactor_signals pre) (w_sig w)) w.
 
+Definition stop_of_id (k : nat) : stopfn := match k with 0 => SReal | S _ => SUser k end.
+Definition id_of_stop (s : stopfn) : nat := match s with SReal => 0 | SUser k => k | SFake => 99 end.
+
+(* somebody overrides reactor.stop on the instance (or removes the override) before the call *)
+Definition install_stop (x : option nat) (w : world) : world :=
+  match x with Some k => set_stop (stop_of_id k) w | None => w end.
+
 Definition observe (r : res value exc) (w : world) : robs :=
   {| o_res := r;
      o_reentry := w_reentry w;
@@ -17,12 +24,14 @@ Definition observe (r : res value exc) (w : world) : robs :=
      o_running := running (w_r w);
      o_pending := length (queue (w_r w));
      o_readers := length (readers (w_r w));
-     o_stop_ok := match w_stop w with SReal => negb (really_stopped (w_r w)) | SFake => false end;
+     o_stop := id_of_stop (w_stop w);
+     o_stopped := really_stopped (w_r w);
      o_sigs := map (fun s => getsig s (w_sig w)) reactor_signals |}.
 
 Definition step (batch : bool) (w : world) (rs : runspec) : robs * world :=
   let w := if r_clear rs then clear_junk w else w in
   let w := preinstall (r_pre rs) w in
+  let w := install_stop (r_stop rs) w in
   let w := set_reentry None (set_ran [] w) in
   let '(r, w') := run spinner_iterations batch (r_timeout rs) (r_fn rs) w in
   (observe r w', w').
@@ -44,7 +53,8 @@ Definition robs_eqb (a b : robs) : bool :=
   && Bool.eqb (o_running a) (o_running b)
   && Nat.eqb (o_pending a) (o_pending b)
   && Nat.eqb (o_readers a) (o_readers b)
-  && Bool.eqb (o_stop_ok a) (o_stop_ok b)
+  && Nat.eqb (o_stop a) (o_stop b)
+  && Bool.eqb (o_stopped a) (o_stopped b)
   && list_eqb Nat.eqb (o_sigs a) (o_sigs b).
 
 Definition obs_eqb : obs -> obs -> bool := list_eqb robs_eqb.
